@@ -40,8 +40,8 @@ Section C04.
   Variable prime : request -> request.
   Variable override : request -> option (bytes * option bytes).
   Variable negotiate : request -> fatx -> option (N * bytes).
-  Variable vary_tuple : request -> tuple.
-  Variable vary_header : request -> fatx -> list (bytes * bytes).
+  Variable vary_tuple : request -> option (bytes * option bytes) -> tuple.
+  Variable vary_header : request -> option (bytes * option bytes) -> fatx -> list (bytes * bytes).
   Variable clear_alias : request -> option request.
   Notation missR := (missX hstate compute true ims_on fix_ovkey fix_svary sfilter negotiate vary_tuple vary_header).
   Notation serveR := (serveX hstate compute true ims_on true fix_ovkey fix_svary sfilter parse_ims sanitize_ok prime override
@@ -55,7 +55,7 @@ Section C04.
     fst (fst (fst (missR c1 hs now r ov ok))) =
       if may_store_x true sfilter (rq_method r) x
       then xc_insert (insert_key (if fix_ovkey then lookup_req r ov else r) (fx_fat x))
-                     {| ex_vars := [mkVar (vary_tuple r) x now]; ex_created := now; ex_life := lifetime_x x |} c1
+                     {| ex_vars := [mkVar (vary_tuple r ov) x now]; ex_created := now; ex_life := lifetime_x x |} c1
       else c1.
   Proof. exact (miss_store_x hstate compute ims_on fix_ovkey fix_svary sfilter negotiate vary_tuple vary_header). Qed.
 
@@ -148,8 +148,8 @@ Theorem computed_once_history :
   forall (hstate : Type) (compute : hstate -> request -> option (bytes * option bytes) -> bool -> fatx * hstate * list bytes)
          (ims_on fix_clear fix_svary : bool) (sfilter : N -> bool) (parse_ims : bytes -> option Z) (sanitize_ok : request -> bool)
          (prime : request -> request) (override : request -> option (bytes * option bytes))
-         (negotiate : request -> fatx -> option (N * bytes)) (vary_tuple : request -> tuple)
-         (vary_header : request -> fatx -> list (bytes * bytes)) (clear_alias : request -> option request)
+         (negotiate : request -> fatx -> option (N * bytes)) (vary_tuple : request -> option (bytes * option bytes) -> tuple)
+         (vary_header : request -> option (bytes * option bytes) -> fatx -> list (bytes * bytes)) (clear_alias : request -> option request)
          (r0 : request) (x : fatx) (now0 D : N),
   (forall hs r' ov', may_store_x true sfilter (rq_method r') (fst (fst (compute hs r' ov' false))) = false) ->
   (forall hs r' ov' ok, rq_path (lookup_req r' ov') = rq_path (lookup_req (prime r0) (override r0)) ->
@@ -169,8 +169,8 @@ Theorem computed_once_history :
   snd run <= D ->
   snd (serveR (fst run) (snd run) r0) = [] /\ snd (fst (fst (serveR (fst run) (snd run) r0))) = snd (fst run) /\
   rx_from_cache (snd (fst (serveR (fst run) (snd run) r0))) = true /\
-  exists v, v_tuple v = vary_tuple (prime r0) /\
-            snd (fst (serveR (fst run) (snd run) r0)) = finishX fix_svary negotiate vary_header (prime r0) (v_resp v) ims_on true false.
+  exists v, v_tuple v = vary_tuple (prime r0) (override r0) /\
+            snd (fst (serveR (fst run) (snd run) r0)) = finishX fix_svary negotiate vary_header (prime r0) (override r0) (v_resp v) ims_on true false.
 Proof.
   intros hstate compute ims_on fix_clear fix_svary sfilter parse_ims sanitize_ok prime override negotiate vary_tuple
          vary_header clear_alias r0 x now0 D Herr Hsame c hs hs1 lg1 ops.
@@ -184,12 +184,12 @@ Theorem uncacheable_always_recomputed :
   forall (hstate : Type) (compute : hstate -> request -> option (bytes * option bytes) -> bool -> fatx * hstate * list bytes)
          (ims_on fix_clear : bool) (sfilter : N -> bool) (parse_ims : bytes -> option Z) (sanitize_ok : request -> bool)
          (prime : request -> request) (override : request -> option (bytes * option bytes))
-         (negotiate : request -> fatx -> option (N * bytes)) (vary_tuple : request -> tuple)
-         (vary_header : request -> fatx -> list (bytes * bytes)) (clear_alias : request -> option request)
+         (negotiate : request -> fatx -> option (N * bytes)) (vary_tuple : request -> option (bytes * option bytes) -> tuple)
+         (vary_header : request -> option (bytes * option bytes) -> fatx -> list (bytes * bytes)) (clear_alias : request -> option request)
          (cf : request -> option (bytes * option bytes) -> bool -> fatx),
   (forall hs r ov ok, fst (fst (compute hs r ov ok)) = cf r ov ok) ->
   (forall r ov r' ov', get_or_head (rq_method r) = true -> get_or_head (rq_method r') = true ->
-     vary_tuple r = vary_tuple r' -> rq_path (lookup_req r ov) = rq_path (lookup_req r' ov') ->
+     vary_tuple r ov = vary_tuple r' ov' -> rq_path (lookup_req r ov) = rq_path (lookup_req r' ov') ->
      (qmx (cf r ov true) = true -> path_query (lookup_req r ov) = path_query (lookup_req r' ov')) ->
      cf r ov true = cf r' ov' true) ->
   (forall r ov r' ov', rq_path (lookup_req r ov) = rq_path (lookup_req r' ov') -> qmx (cf r ov true) = qmx (cf r' ov' true)) ->
